@@ -467,8 +467,9 @@ of_linear_binary_code_simplify_linear_system_with_a_symbol (of_linear_binary_cod
 											     ofcb->encoding_symbol_length,
 											     decoded_symbol_seqno);
 					}
-					else
+					if (ofcb->encoding_symbols_tab[decoded_symbol_seqno] == NULL)
 					{
+						/* no callback, or the application lets the library allocate the buffer */
 						ofcb->encoding_symbols_tab[decoded_symbol_seqno] = of_malloc (ofcb->encoding_symbol_length);
 					}
 					if (ofcb->encoding_symbols_tab[decoded_symbol_seqno] == NULL)
@@ -501,8 +502,9 @@ of_linear_binary_code_simplify_linear_system_with_a_symbol (of_linear_binary_cod
 											     ofcb->encoding_symbol_length,
 											     decoded_symbol_seqno);
 					}
-					else
+					if (ofcb->encoding_symbols_tab[decoded_symbol_seqno] == NULL)
 					{
+						/* no callback, or the application lets the library allocate the buffer */
 						ofcb->encoding_symbols_tab[decoded_symbol_seqno] = of_malloc (ofcb->encoding_symbol_length);
 					}
 					if (ofcb->encoding_symbols_tab[decoded_symbol_seqno] == NULL)
